@@ -33,7 +33,7 @@ META = {
                      "autograd modelled as an arbitrary-gradient oracle with torch's accumulate-into-.grad semantics"],
     "stubs": ["fairlearn.adversarial._pytorch_engine.torch -> object-ndarray tensor stub", "fairlearn.adversarial._tensorflow_engine.tensorflow -> same stub with tf names",
               "_tensorflow_engine.finfo -> symbolic tiny", "models/losses/optimisers: recording stand-ins"],
-    "assumptions": ["exact reals", "tiny > 0", "alpha >= 0", "TensorFlow is not installed: the TF engine is checked on the stub only; TF counter-examples are replayed on a float version of the stub"],
+    "assumptions": ["exact reals", "tiny > 0", "alpha >= 0 (alpha may have been changed by set_params after the engine was created: alpha0 at creation, alpha at the step)", "TensorFlow is not installed: the TF engine is checked on the stub only; TF counter-examples are replayed on a float version of the stub"],
     "outside": ["real network architectures (the update rule is per parameter tensor and does not depend on how gradients arise)", "float32 rounding", "cuda"],
 }
 MANIFEST = {
@@ -318,9 +318,42 @@ class Env:
             env.adv_loss_args = (a, b)
             return Loss("LA")
 
-        self.engine = types.SimpleNamespace(
-            predictor_model=Model("pred"), adversary_model=Model("adv"), predictor_optimizer=Opt("pred"), adversary_optimizer=Opt("adv"),
-            predictor_loss=ploss, adversary_loss=aloss, base=types.SimpleNamespace(pass_y_=pass_y, alpha=mk("alpha", ())), cuda=False)
+        self.parts = dict(models={"pred": Model("pred"), "adv": Model("adv")}, opts={"pred": Opt("pred"), "adv": Opt("adv")}, losses={"pred": ploss, "adv": aloss})
+        self.engine = None
+
+    def build_engine(self, eng_name, alpha_at_creation, alpha_now):
+        """The engine object is created by the REAL BackendEngine.__init__ (through a subclass that only supplies the model / loss / optimiser
+        factories), with alpha = alpha_at_creation; afterwards the estimator's parameter is changed to alpha_now (set_params between steps)."""
+        from fairlearn.adversarial._backend_engine import BackendEngine
+        import fairlearn.adversarial._pytorch_engine as pe
+        import fairlearn.adversarial._tensorflow_engine as te
+
+        env = self
+        parent = pe.PytorchEngine if eng_name == "torch" else te.TensorflowEngine
+        order = {"m": iter(["pred", "adv"]), "l": iter(["pred", "adv"]), "o": iter(["pred", "adv"])}
+
+        class SymEngine(parent):
+            model_class = type("M", (), {})
+            optim_class = type("O", (), {})
+
+            def get_model(self, list_nodes):
+                return env.parts["models"][next(order["m"])]
+
+            def get_loss(self, kw):
+                return env.parts["losses"][next(order["l"])]
+
+            def get_optimizer(self, optim_param, model):
+                return env.parts["opts"][next(order["o"])]
+
+        base = types.SimpleNamespace(
+            alpha=alpha_at_creation, pass_y_=self.pass_y, warm_start=False, predictor_model=[], adversary_model=[], predictor_loss_="binary",
+            adversary_loss_="binary", predictor_optimizer="Adam", adversary_optimizer="Adam", learning_rate=0.1, cuda=False,
+            _y_transform=types.SimpleNamespace(n_features_out_=1), _sf_transform=types.SimpleNamespace(n_features_out_=1), random_state_=None)
+        eng = SymEngine.__new__(SymEngine)
+        BackendEngine.__init__(eng, base, np.zeros((2, 1)), None, None)
+        base.alpha = alpha_now
+        self.engine = eng
+        return eng
 
     @staticmethod
     def _arr(prefix, shape, mk):
@@ -422,12 +455,11 @@ def run_job(job, deadline):
         _TINY[0] = real("tiny", 0, None, lo_strict=True)
 
         def mk(prefix, idx):
-            if prefix == "alpha":
-                return real("alpha", 0)
             return real(prefix + "_" + "_".join(map(str, idx)))
 
         env = Env(shapes, job["pass_y"], mk)
         try:
+            env.build_engine(job["engine"], real("alpha0", 0), real("alpha", 0))
             _call_step(job["engine"], env)
         except Exception as e:
             return env, e
@@ -556,11 +588,32 @@ def replay(cex):
                 return x[:, 1:2].sum() + (s.us[0] * tGU).sum()
 
         pm, am = Pred(), Adv()
-        eng = types.SimpleNamespace(
-            predictor_model=pm, adversary_model=am,
-            predictor_optimizer=torch.optim.SGD(pm.parameters(), lr=1.0), adversary_optimizer=torch.optim.SGD(am.parameters(), lr=1.0),
-            predictor_loss=lambda yh, y: yh[:, 0].sum(), adversary_loss=lambda ah, a: ah,
-            base=types.SimpleNamespace(pass_y_=job["pass_y"], alpha=alpha), cuda=False)
+        from fairlearn.adversarial._backend_engine import BackendEngine
+
+        mods = iter([pm, am])
+        losses = iter([lambda yh, y: yh[:, 0].sum(), lambda ah, a: ah])
+
+        class RealEngine(pe.PytorchEngine):
+            model_class = torch.nn.Module
+            optim_class = torch.optim.Optimizer
+
+            def get_model(self, list_nodes):
+                return next(mods)
+
+            def get_loss(self, kw):
+                return next(losses)
+
+            def get_optimizer(self, optim_param, model):
+                return torch.optim.SGD(model.parameters(), lr=1.0)
+
+        alpha0 = float(F(mdl.get("alpha0", "0")))
+        base = types.SimpleNamespace(
+            alpha=alpha0, pass_y_=job["pass_y"], warm_start=False, predictor_model=[], adversary_model=[], predictor_loss_="binary", adversary_loss_="binary",
+            predictor_optimizer="Adam", adversary_optimizer="Adam", learning_rate=0.1, cuda=False, _y_transform=types.SimpleNamespace(n_features_out_=1),
+            _sf_transform=types.SimpleNamespace(n_features_out_=1), random_state_=None)
+        eng = RealEngine.__new__(RealEngine)
+        BackendEngine.__init__(eng, base, np.zeros((2, 1)), None, None)
+        base.alpha = alpha  # parameter changed after the engine was created (set_params between steps)
         X = torch.zeros(1, 1)
         Y = torch.zeros(1, 1)
         A = torch.zeros(1, 1)
@@ -599,12 +652,11 @@ def replay(cex):
     te.finfo = _LIB.finfo
 
     def mk(prefix, idx):
-        if prefix == "alpha":
-            return alpha
         return float(F(mdl.get(prefix + "_" + "_".join(map(str, idx)), "0")))
 
     env = Env(shapes, job["pass_y"], mk)
     try:
+        env.build_engine("tf", float(F(mdl.get("alpha0", "0"))), alpha)
         te.TensorflowEngine.train_step(env.engine, env.X, env.Y, env.A)
     except Exception as e:
         return {"reproduced": True, "signature": "tf:exception", "detail": f"train_step on float stub raised {type(e).__name__}: {e}"}
